@@ -17,7 +17,7 @@
 From Coq Require Import ZArith Reals List.
 From OW Require Import Base.Arith Base.RInst Base.Mealy.
 From OW Require Import Kernels.Muskingum Kernels.Lag Kernels.StorageRouting.
-From OW Require Import KernelProofs.Muskingum KernelProofs.Lag KernelProofs.StorageRouting.
+From OW Require Import KernelProofs.Muskingum KernelProofs.Lag KernelProofs.StorageRouting KernelProofs.StorageRoutingBound.
 Import ListNotations.
 Local Open Scope R_scope.
 
@@ -118,6 +118,15 @@ Theorem C11_lag_fn_spec : forall (T : Type) (A : Arith T) (timeLag : T) (L : nat
 Proof. exact @lag_fn_spec. Qed.
 Print Assumptions C11_lag_fn_spec.
 
+(** Cold start from the buffer that initLag creates. *)
+Theorem C11_lag_cold_start : forall (T : Type) (A : Arith T) (timeLag : T) (L : nat) (inflow : list T),
+  truncZ timeLag = Z.of_nat L ->
+  exists buffer, lag_init timeLag = Some buffer /\ length buffer = L /\
+    lag_fn timeLag inflow buffer
+    = Some (firstn (length inflow) (repeat zero L ++ inflow), lastn L (repeat zero L ++ inflow)).
+Proof. exact @lag_cold_start. Qed.
+Print Assumptions C11_lag_cold_start.
+
 (** Carried-over buffer: routing xs and then ys equals routing xs ++ ys. *)
 Theorem C11_lag_compose : forall (T : Type) (A : Arith T) (L : nat) (xs ys buffer : list T),
   length buffer = L ->
@@ -198,6 +207,17 @@ Theorem C11_sr_constitutive_closed_partial : forall bias k m area dead dt i l pq
   (path = 4%nat -> l = 0 -> sto = 0 /\ 0 <= k * Rpow out m + dead < limit).
 Proof. exact sr_constitutive_closed_partial. Qed.
 Print Assumptions C11_sr_constitutive_closed_partial.
+
+(** The same in "storage space" (the tolerance used by the executable oracle): on the converged
+    exits |S - (k Q^m + dead)| <= k (massBalanceLimit/dt)^m  (sub-additivity of x^m, 0 < m <= 1). *)
+Theorem C11_sr_constitutive_sspace : forall bias k m area dead dt i l pq S rate qi out sto path,
+  sr_stable bias k m dead dt -> Rabs bias < 1 / 1000 ->
+  0 <= S -> 0 <= l ->
+  calc_outflow (sr_setup bias k m area dead dt) i l pq S rate = Some (qi, out, sto, path) ->
+  0 < out -> (path = 2 \/ path = 5 \/ path = 6)%nat ->
+  Rabs (sto - (k * Rpow out m + dead)) <= k * Rpow (limit / dt) m.
+Proof. exact sr_constitutive_sspace. Qed.
+Print Assumptions C11_sr_constitutive_sspace.
 
 (** REFUTED on the current code (finding sr-highbias-index-storage): bias >= 0.999 inside the domain. *)
 Theorem C11_sr_highbias_balance_refuted :
